@@ -281,10 +281,10 @@ Section C04_eval.
   Notation solve_P := (solve_P num add sub mul div pow neg absf ltb leb eqb zero fun1 fun2 flagged isfin L locate).
   Notation solve_mon := (solve_mon num add sub mul div pow neg absf ltb leb eqb zero fun1 fun2 flagged isfin L locate).
 
-  (* solve() with no start / end on a span whose labels resolve to their own positions: iter_periods yields exactly
-     lags .. n-1-leads and the frame of the default range holds for the call as a whole *)
+  (* solve() with no start / end, ANY span (no hypothesis on the labels: since fix 7cd6323 the defaults are positions, not
+     labels looked up again): iter_periods yields exactly lags .. n-1-leads and the default-range frame holds for the call *)
   Theorem C04_solve_entry_default_range_frame (prog : program num) d o (span : list L) s :
-    min_iter o <= max_iter o -> SolveAllFacts.locate_ok L locate span ->
+    min_iter o <= max_iter o ->
     length (status s) = length span -> (lags d + leads d < length span)%nat ->
     wf_vals (length (status s)) (vals_of s) ->
     (prog_lags num prog <= lags d)%nat -> (prog_leads num prog <= leads d)%nat ->
@@ -379,7 +379,7 @@ Section C04_eval.
   Proof. exact (solve_period_every_span_touches_only_its_period num add sub mul div pow neg absf ltb leb eqb zero fun1 fun2 flagged isfin k prog d o span lab i s). Qed.
 
   Theorem C04_solve_every_span_default_range_frame k (prog : program num) d o (span : list Z) s :
-    NoDup span -> min_iter o <= max_iter o ->
+    min_iter o <= max_iter o ->
     length (status s) = length span -> (lags d + leads d < length span)%nat ->
     wf_vals (length (status s)) (vals_of s) ->
     (prog_lags num prog <= lags d)%nat -> (prog_leads num prog <= leads d)%nat ->
@@ -421,17 +421,51 @@ Section C04_linker.
                agree_outside (W id (shape (vals_of (Linker.c_st c)))) (vals_of (Linker.c_st c)) (vals_of (Linker.c_st c')).
   Proof. exact (EvalLinker.linker_solve_t_cells num sub absf ltb zero sev pre ebefore eafter post t W). Qed.
 
-  (* parser-built submodels: each changes only the cells its OWN equations assign for index t (as NumPy serves that index:
-     the linker has no feasibility guard of its own), every selection of submodels, every option set *)
+  (* parser-built submodels (lsev: each submodel's generated pass as evaluate_t runs it, inside warnings.simplefilter('always')):
+     each changes only the cells its OWN equations assign for index t, every selection of
+     submodels, every option set (in a period the guard lets through these are (y, p + k): next theorem but one) *)
   Theorem C04_linker_parsed_solve_t_cells (progs : Linker.sid -> program num) sel o t s i id c :
     nth_error (Linker.l_subs s) i = Some (id, c) ->
     let s' := fst (Linker.linker_solve_t_M num sub absf ltb zero
-                     (fun j => ev_of num add sub mul div pow neg absf ltb leb eqb zero fun1 fun2 flagged (progs j))
+                     (EvalLinker.lsev num add sub mul div pow neg absf ltb leb eqb zero fun1 fun2 flagged progs)
                      (EvalLinker.lpass num) (EvalLinker.lpass num) (EvalLinker.lpass num) (EvalLinker.lpass num) sel o t s) in
     vals_of (Linker.c_st (Linker.l_core s')) = vals_of (Linker.c_st (Linker.l_core s)) /\
     exists c', nth_error (Linker.l_subs s') i = Some (id, c') /\ Linker.c_desc c' = Linker.c_desc c /\
                agree_outside (written num (progs id) (shape (vals_of (Linker.c_st c))) t) (vals_of (Linker.c_st c)) (vals_of (Linker.c_st c')).
   Proof. exact (EvalLinker.linker_parsed_solve_t_cells num add sub mul div pow neg absf ltb leb eqb zero fun1 fun2 flagged progs sel o t s i id c). Qed.
+
+  (* the linker analogues of the up-front rejections (fixes 97423a0, a0fbb5c), for EVERY submodel oracle and linker hooks:
+     min_iter > max_iter -> ValueError; a period without room for the LINKER's lags or leads (both spellings of t) ->
+     IndexError; in both cases the whole linker state (core, every submodel, event log) is exactly what it was *)
+  Theorem C04_linker_rejected_min_gt_max_no_change (sev : Linker.sid -> hook num) (pre ebefore eafter post : Linker.lhook num) t sel o s :
+    max_iter o < min_iter o ->
+    Linker.linker_solve_t_M num sub absf ltb zero sev pre ebefore eafter post sel o t s = (s, Linker.LRaise (Linker.LExn ValueError)).
+  Proof. exact (EvalLinker.linker_rejected_min_gt_max num sub absf ltb zero sev pre ebefore eafter post t sel o s). Qed.
+
+  Theorem C04_linker_infeasible_period_rejected (sev : Linker.sid -> hook num) (pre ebefore eafter post : Linker.lhook num) t sel o s p :
+    min_iter o <= max_iter o ->
+    py_pos (length (status (Linker.c_st (Linker.l_core s)))) t = Some p ->
+    feasible (Linker.c_desc (Linker.l_core s)) (length (status (Linker.c_st (Linker.l_core s)))) p = false ->
+    Linker.linker_solve_t_M num sub absf ltb zero sev pre ebefore eafter post sel o t s = (s, Linker.LRaise (Linker.LExn IndexError)).
+  Proof. exact (EvalLinker.linker_infeasible_period_rejected num sub absf ltb zero sev pre ebefore eafter post t sel o s p). Qed.
+
+  (* a period the guard lets through, submodel lags / leads within the linker's, arrays of the span's length: a submodel
+     changes no cell other than (y, p + k) for its own left-hand terms — no wrap *)
+  Theorem C04_linker_parsed_solve_t_cells_feasible (progs : Linker.sid -> program num) sel o t s i id c p :
+    nth_error (Linker.l_subs s) i = Some (id, c) ->
+    py_pos (length (status (Linker.c_st (Linker.l_core s)))) t = Some p ->
+    feasible (Linker.c_desc (Linker.l_core s)) (length (status (Linker.c_st (Linker.l_core s)))) p = true ->
+    wf_vals (length (status (Linker.c_st (Linker.l_core s)))) (vals_of (Linker.c_st c)) ->
+    (prog_lags num (progs id) <= lags (Linker.c_desc (Linker.l_core s)))%nat ->
+    (prog_leads num (progs id) <= leads (Linker.c_desc (Linker.l_core s)))%nat ->
+    let s' := fst (Linker.linker_solve_t_M num sub absf ltb zero
+                     (EvalLinker.lsev num add sub mul div pow neg absf ltb leb eqb zero fun1 fun2 flagged progs)
+                     (EvalLinker.lpass num) (EvalLinker.lpass num) (EvalLinker.lpass num) (EvalLinker.lpass num) sel o t s) in
+    exists c', nth_error (Linker.l_subs s') i = Some (id, c') /\ Linker.c_desc c' = Linker.c_desc c /\
+      shape (vals_of (Linker.c_st c')) = shape (vals_of (Linker.c_st c)) /\
+      forall j q, (forall k, In (j, k) (prog_lhs num (progs id)) -> Z.of_nat q <> Z.of_nat p + k) ->
+                  nth_error (nth j (vals_of (Linker.c_st c')) []) q = nth_error (nth j (vals_of (Linker.c_st c)) []) q.
+  Proof. exact (EvalLinker.linker_parsed_solve_t_cells_feasible num add sub mul div pow neg absf ltb leb eqb zero fun1 fun2 flagged progs sel o t s i id c p). Qed.
 End C04_linker.
 
 (* ============ Part B2: the second engine — FortranEngine.solve_t over the compiled template (model Fortran/FSolve.v) ============ *)
@@ -642,6 +676,10 @@ Print Assumptions C04_history_frame.
 Print Assumptions C04_history_unassigned_rows_unchanged.
 Print Assumptions C04_linker_solve_t_values_frame.
 Print Assumptions C04_linker_parsed_solve_t_cells.
+Print Assumptions C04_linker_rejected_min_gt_max_no_change.
+Print Assumptions C04_linker_infeasible_period_rejected.
+Print Assumptions C04_linker_parsed_solve_t_cells_feasible.
+Print Assumptions exL_infeasible.
 Print Assumptions ex_history_run.
 Print Assumptions exL_hyps.
 Print Assumptions C04_solve_period_touches_only_its_period.
